@@ -179,6 +179,9 @@ let e2_cmd (args : string list) : string =
   | ["cur"; cid; "seek"; k] -> run (Cur (ni cid, CSeek (bytes_of_hex k)))
   | ["curclose"; cid] -> run (CurClose (ni cid))
   | ["scan"; id; lo; hi; dir] -> run (Scan (ni id, bopt lo, bopt hi, dir = "b"))
+  | ["checkpoint"; c] -> run (Checkpoint (ni c))
+  | ["restore"; c] -> run (Restore (ni c))
+  | ["ckptscan"; c] -> run (CkptScan (ni c))
   | ["rotate"] | ["flush"] | ["flush1"] | ["compact"; _] | ["compactauto"] -> run Physical
   | ["levels"] | ["snapshots"] -> "info"
   | _ -> "bad-command"
